@@ -222,9 +222,14 @@ def runVrp (j : Json) : R (List (String × Json)) := do
   | .error _ => return [("model", Json.null), ("oracle", Json.mkObj [("trace_complete", Json.bool false)])]
   | .ok c =>
     let cmp ← asInt c
+    -- against the solution as it was written by the first solve (the file the user seeds with) and as it was read back
+    let cmpW ← match implJ.getObjVal? "cmp_written" with | .ok v => asInt v | .error _ => pure cmp
+    let rw ← match implJ.getObjVal? "read_vs_written" with | .ok v => asInt v | .error _ => pure 0
     return [("model", Json.null),
             ("oracle", Json.mkObj [("trace_complete", Json.bool true),
-                                   ("seeded_result_not_worse_than_initial", Json.bool (decide (cmp ≤ 0)))])]
+                                   ("seeded_result_not_worse_than_initial", Json.bool (decide (cmp ≤ 0))),
+                                   ("seeded_result_not_worse_than_the_written_solution", Json.bool (decide (cmpW ≤ 0))),
+                                   ("solution_read_back_not_worse_than_written", Json.bool (decide (rw ≤ 0)))])]
 
 def handle (j : Json) : R (List (String × Json)) := do
   let k ← strF j "k"
